@@ -129,6 +129,33 @@ type Ctx struct {
 	errIDs    int
 	epochs    int
 	csort     map[string]string // constant name -> sort
+	defs      map[string]string // heap map version constant -> the term it was defined as (heapSet)
+	allocs    map[string]bool   // allocation constants (pairwise distinct)
+}
+
+// resolveSel reads map version m at key k through the store chain recorded in defs, as far as the
+// keys can be compared syntactically (equal text, or two different allocation constants).
+func (c *Ctx) resolveSel(m, k string) string {
+	for i := 0; i < 64; i++ {
+		d, ok := c.defs[m]
+		if !ok {
+			break
+		}
+		t, err := parseSx(d)
+		if err != nil || t.head() != "store" || len(t.list) != 4 {
+			break
+		}
+		k0 := t.list[2].String()
+		if k0 == k {
+			return t.list[3].String()
+		}
+		if c.allocs[k0] && c.allocs[k] {
+			m = t.list[1].String()
+			continue
+		}
+		break
+	}
+	return sel2(m, k)
 }
 
 func newCtx(sr *SortReg) *Ctx {
@@ -301,6 +328,9 @@ func (c *Ctx) render(pc []string, goal string, cover bool, cands []string, lens 
 			continue
 		}
 		if lite && !cover && (strings.Contains(p, "(forall ") || strings.Contains(p, "(exists ")) {
+			if envInt("GOVC_EMATCH", 1) == 1 && strings.HasPrefix(p, "(forall ((k! Int)) (! ") {
+				patAxioms = append(patAxioms, p) // definitional facts of the stream model: matched syntactically as well
+			}
 			continue // written below in weakened form
 		}
 		b.WriteString("(assert " + p + ")\n")
